@@ -23,6 +23,9 @@ pub mod state;
 pub mod streaming;
 pub mod tcp;
 pub mod versioning;
+#[cfg(kani)]
+#[path = "/verif/harness/server/mod.rs"]
+pub mod verif;
 
 const VERSION: &str = env!("CARGO_PKG_VERSION");
 const IGGY_ROOT_USERNAME_ENV: &str = "IGGY_ROOT_USERNAME";
